@@ -18,11 +18,18 @@ def parse(path):
             call['sink'].append(line[2:])
         elif line.startswith('E '):
             call['events'].append(line[2:])
+        elif line.startswith('H '):
+            # level-2 handler invocation: "H <kind> <idx> r=<results> a=<after> | <token>"
+            head, _, tok = line[2:].partition(' | ')
+            call['events'].append(tok if tok != '-' else 'X')
+            call.setdefault('handlers', []).append(head)
         elif line.startswith('R '):
             _, k, res = line.split(' ', 2)
             call['res'] = res
             cur['calls'].append(call)
             call = {'sink': [], 'events': [], 'res': None, 'usage': None}
+        elif line.startswith('X '):
+            cur['extra'].append(line)
         elif line.startswith('U '):
             if cur['calls']:
                 cur['calls'][-1]['usage'] = int(line.split(' ')[2])
@@ -96,12 +103,16 @@ def p_pending(case):
         out.append((norm_res(c['res']), tot))
     return out
 def p_usage(case): return [(norm_res(c['res']), c['usage']) for c in case['calls']]
+def p_handlers(case):
+    """which handler ran on which token with which op results / post-state (text chunks not merged here:
+    handler invocations are per chunk; fragmentation is identical on both sides for the same chunking)"""
+    return [(norm_res(c['res']), list(zip(c.get('handlers', []), [e for e in c['events']]))) for c in case['calls']]
 def p_full(case):
-    return [(norm_res(c['res']), norm_sink(c['sink']), norm_events(c['events'])) for c in case['calls']]
+    return [(norm_res(c['res']), norm_sink(c['sink']), norm_events(c['events']), c.get('handlers', []), c['usage']) for c in case['calls']]
 
 PROJECTIONS = {
     'results': p_results, 'out_bytes': p_out_bytes, 'sink_protocol': p_sink_protocol, 'events': p_events,
-    'events_noloc': p_events_noloc, 'pending': p_pending, 'usage': p_usage, 'full': p_full,
+    'events_noloc': p_events_noloc, 'pending': p_pending, 'usage': p_usage, 'handlers': p_handlers, 'full': p_full,
 }
 
 def compare(impl_path, model_path, projections=None):
